@@ -124,6 +124,18 @@ def run_case(ctx, case):
             studio = PlaybackStudio(conv(categories), Tuner(), rec, recording_ids=None if ids is None else conv(ids),
                                     compare_execution_config=cfg, **kw_lp)
             result = studio.play()
+            if case.get('play_again') is not None:
+                # the same studio object is played a second time after the tuner's situation changed (a category whose
+                # tuning failed can now be tuned, another one fails now): the second run is judged like a first one
+                for g in result.values():
+                    if not isinstance(g, Exception):
+                        for _ in g:
+                            pass
+                failing.clear()
+                failing.update(case['play_again'])
+                tuner_errors.clear()
+                del journal[:]
+                result = studio.play()
             keys = list(result.keys())
             gens = dict((c, iter(g)) for c, g in result.items() if not isinstance(g, Exception))
             got = dict((c, []) for c in gens)
@@ -156,6 +168,7 @@ def run_case(ctx, case):
             categories = list(case['categories'])
             ids = None
             want = dict((c, [rid for cat, rid, _ in made if cat == c]) for c in categories)
+        first_failing = set(failing)
         keys, result, got = studio_run(ids, categories, case['order'])
         lp_ = case.get('lookup', 'nolimit')
         lim = None if lp_ == 'nolimit' else (20 if lp_ == 'default' else lp_)    # documented default limit: 20
@@ -215,6 +228,8 @@ def run_case(ctx, case):
         # metamorphic: permuting the id list does not change the category order nor the per-category sets
         if case['mode'] == 'explicit' and len(ids) > 1:
             perm = [ids[i] for i in sorted(range(len(ids)), key=lambda i: (case['perm'][i % len(case['perm'])], i))]
+            failing.clear()
+            failing.update(first_failing)
             keys2, result2, got2 = studio_run(perm, categories, case['order'][::-1] or [0])
             if keys2 != keys:
                 raise Violation('category order changed with the order of the id list: %r vs %r' % (keys, keys2),
@@ -226,7 +241,8 @@ def run_case(ctx, case):
     nt = prefix_related(cats_present) or bool(failing & set(want))
     ctx.case(case, nt, classes=('mode:' + case['mode'], 'cassette:' + kind, 'failing:%d' % len(failing & set(want)),
                                 'dedicated' if case.get('dedicated') else 'in-process',
-                                'categories:%d' % len(want), 'lookup-properties:%s' % case.get('lookup', 'nolimit')))
+                                'categories:%d' % len(want), 'lookup-properties:%s' % case.get('lookup', 'nolimit'),
+                                'studio-played-twice' if case.get('play_again') is not None else 'studio-played-once'))
 
 
 @st.composite
@@ -239,6 +255,8 @@ def cases(draw):
             'dedicated': draw(st.sampled_from([False] * 9 + [True])),
             'container': draw(st.sampled_from(['list', 'list', 'tuple'])),
             'lookup': draw(st.sampled_from(['nolimit', 'nolimit', 'default', 1, 2, 3]))}
+    if draw(st.sampled_from([False, False, True])):
+        case['play_again'] = draw(st.lists(st.sampled_from(CATS), max_size=2, unique=True))
     if mode == 'explicit':
         case['pick'] = draw(st.lists(st.integers(0, 20), min_size=1, max_size=8))
         case['perm'] = draw(st.lists(st.integers(0, 9), min_size=1, max_size=8))
